@@ -63,11 +63,15 @@ def run(cx):
             g = dd[0].args[0]
             conds = " and ".join(norm(i) for i in g.generators[0].ifs)
             v = norm(g.generators[0].target)
-            ok = norm(g.elt) == v and f"{v} in self.repos" in conds and f"{v} not in done_repos" in conds and norm(g.generators[0].iter).endswith("._COMPONENTS_VERSIONS_LOCATIONS") \
+            from sa.guards import split as _split
+            conj = sorted(norm(e) if pol else "not " + norm(e) for i in g.generators[0].ifs for e, pol in _split(i, True))
+            ok = norm(g.elt) == v and conj == sorted([f"{v} in self.repos", f"{v} not in done_repos"]) and norm(g.generators[0].iter).endswith("._COMPONENTS_VERSIONS_LOCATIONS") \
                 and norm(g.generators[0].iter).split(".")[0] == "cur_repo"
+            extra = [c for c in conj if c not in (f"{v} in self.repos", f"{v} not in done_repos")]
             gname = e.id
     cx.ob("R07b", ap, ok, f"appended only when no present sub-component is unprocessed (`not {gname}`)" if ok else
-          "a repository can be appended to sorted_repos while one of its components (present in the collection) is still unprocessed")
+          "a repository can be appended to sorted_repos while one of its components (present in the collection) is still unprocessed"
+          " (the pending-components filter must be exactly `in self.repos and not in done_repos`; any further exclusion treats an unfinished component as finished)")
     cr = [v for _, v in assignments(init, "cur_repo") if v is not None]
     ok = len(cr) == 1 and norm(cr[0]) == f"self.repos[{cur}]"
     cx.ob("R07b", ap, ok, "the components examined are those of the repository being placed" if ok else "components are read from another repository", stmt=norm(enclosing_stmt(ap)) + " [same repo]")
